@@ -41,20 +41,21 @@ var maxModeName = [...]string{"max-default", "max-unlimited", "max-size-1", "max
 
 type frame struct {
 	Type    string     `json:"type"`
-	M       *model.Msg `json:"m,omitempty"`   // content of a drawn frame
-	Craft   int        `json:"craft"`         // >= 0: crafted body of exactly this many bytes (craftType); -1: M
+	M       *model.Msg `json:"m,omitempty"` // content of a drawn frame
+	Craft   int        `json:"craft"`       // >= 0: crafted body of exactly this many bytes (craftType); -1: M
 	Fill    byte       `json:"fill,omitempty"`
-	Wire    []byte     `json:"wire,omitempty"` // reference body of a drawn frame (perturbed but equivalent encoding of M)
+	Wire    []byte     `json:"wire,omitempty"`     // reference body of a drawn frame (perturbed but equivalent encoding of M)
 	SizePad int        `json:"size_pad,omitempty"` // length of the size varint in the reference stream (0 = shortest)
-	Max     int        `json:"max"`           // MaxSize mode of the read that meets this frame
+	Max     int        `json:"max"`                // MaxSize mode of the read that meets this frame
 }
 
 type readerSpec struct {
-	Kind        string `json:"kind"`            // bufio | bytes | onebyte | short
-	Buf         int    `json:"buf,omitempty"`   // bufio buffer size
-	Under       string `json:"under,omitempty"` // reader below bufio: bytes | onebyte | short
-	Chunks      []int  `json:"chunks,omitempty"` // short reader: successive Read sizes (cycled); 0 = a (0, nil) read
+	Kind        string `json:"kind"`                    // bufio | bytes | onebyte | short
+	Buf         int    `json:"buf,omitempty"`           // bufio buffer size
+	Under       string `json:"under,omitempty"`         // reader below bufio: bytes | onebyte | short
+	Chunks      []int  `json:"chunks,omitempty"`        // short reader: successive Read sizes (cycled); 0 = a (0, nil) read
 	EOFWithData bool   `json:"eof_with_data,omitempty"` // short reader returns the last bytes together with io.EOF
+	Broken      bool   `json:"broken,omitempty"`        // short reader: the data ends with errBroken instead of io.EOF
 }
 
 type streamCase struct {
@@ -181,14 +182,17 @@ type shortReader struct {
 	off, i      int
 	chunks      []int
 	eofWithData bool
+	end         error // io.EOF, or errBroken for a connection that breaks
 }
+
+var errBroken = errors.New("c27: connection reset")
 
 func (r *shortReader) Read(p []byte) (int, error) {
 	if len(p) == 0 {
 		return 0, nil
 	}
 	if r.off == len(r.data) {
-		return 0, io.EOF
+		return 0, r.end
 	}
 	k := 1
 	if len(r.chunks) > 0 {
@@ -201,14 +205,14 @@ func (r *shortReader) Read(p []byte) (int, error) {
 	n := copy(p[:min(k, len(p))], r.data[r.off:])
 	r.off += n
 	if r.off == len(r.data) && r.eofWithData {
-		return n, io.EOF
+		return n, r.end
 	}
 	return n, nil
 }
 
 func (r *shortReader) ReadByte() (byte, error) {
 	if r.off == len(r.data) {
-		return 0, io.EOF
+		return 0, r.end
 	}
 	b := r.data[r.off]
 	r.off++
@@ -218,9 +222,13 @@ func (r *shortReader) ReadByte() (byte, error) {
 func (rs readerSpec) plain(kind string, data []byte) protodelim.Reader {
 	switch kind {
 	case "onebyte":
-		return &shortReader{data: data, chunks: []int{1}}
+		return &shortReader{data: data, chunks: []int{1}, end: io.EOF}
 	case "short":
-		return &shortReader{data: data, chunks: rs.Chunks, eofWithData: rs.EOFWithData}
+		end := io.EOF
+		if rs.Broken {
+			end = errBroken
+		}
+		return &shortReader{data: data, chunks: rs.Chunks, eofWithData: rs.EOFWithData, end: end}
 	default:
 		return bytes.NewReader(data)
 	}
@@ -281,8 +289,8 @@ func limitOf(max int64) (limit uint64, unlimited bool) {
 }
 
 type readStats struct {
-	frames, eof, unexpected, tooLarge, badVarint int
-	cutInSize, cutInBody                          bool
+	frames, eof, unexpected, tooLarge, badVarint, broken int
+	cutInSize, cutInBody                                 bool
 }
 
 // readBack reads stream s with the case's reader and options and compares every result with the
@@ -303,6 +311,7 @@ func readBack(label string, s []byte, c *streamCase, rs readerSpec, want []*mode
 			wantUnexpected
 			wantTooLarge
 			wantBadVarint
+			wantNothing
 		)
 		verdict, size, vn := wantFrame, uint64(0), 0
 		var max int64
@@ -343,6 +352,19 @@ func readBack(label string, s []byte, c *streamCase, rs readerSpec, want []*mode
 		err := o.UnmarshalFrom(r, m.Interface())
 		where := fmt.Sprintf("%s, read %d at offset %d of %d (MaxSize %d, reader %s)", label, i, pos, len(s), max, rs.String())
 		switch verdict {
+		case wantEOF, wantUnexpected:
+			if !rs.broken() {
+				break
+			}
+			// "if r returns a non-io.EOF error, UnmarshalFrom returns it unchanged"
+			st.broken++
+			if err != errBroken {
+				return fmt.Errorf("%s: the reader fails here with its own error: got error %v, want that error unchanged", where, err)
+			}
+			verdict = wantNothing
+		}
+		switch verdict {
+		case wantNothing:
 		case wantEOF:
 			st.eof++
 			if err != io.EOF {
@@ -402,16 +424,20 @@ func readBack(label string, s []byte, c *streamCase, rs readerSpec, want []*mode
 	return nil
 }
 
+func (rs readerSpec) broken() bool {
+	return rs.Broken && (rs.Kind == "short" || rs.Kind == "bufio" && rs.Under == "short")
+}
+
 func (rs readerSpec) String() string {
 	switch rs.Kind {
 	case "bufio":
 		s := fmt.Sprintf("bufio(%d) over %s", rs.Buf, rs.Under)
 		if rs.Under == "short" {
-			s += fmt.Sprintf("%v", rs.Chunks)
+			s += fmt.Sprintf("%v broken=%v", rs.Chunks, rs.Broken)
 		}
 		return s
 	case "short":
-		return fmt.Sprintf("short%v eofWithData=%v", rs.Chunks, rs.EOFWithData)
+		return fmt.Sprintf("short%v eofWithData=%v broken=%v", rs.Chunks, rs.EOFWithData, rs.Broken)
 	}
 	return rs.Kind
 }
